@@ -22,7 +22,20 @@ LINESEP = {'LF': '\n', 'CRLF': '\r\n', 'CR': '\r'}
 
 
 def cell_py(c):
-    return None if c == NONE else s(c)
+    if c == NONE:
+        return None
+    if c and c[0] == 1114113:           # a list cell: elements separated by 1114114, each text or None
+        elems, cur = [], []
+        for x in c[1:]:
+            if x == 1114114:
+                elems.append(cur)
+                cur = []
+            else:
+                cur.append(x)
+        if len(c) > 1:
+            elems.append(cur)
+        return [None if e == NONE else s(e) for e in elems]
+    return s(c)
 
 
 def table_py(T):
@@ -36,7 +49,7 @@ def py_write(mods, table, dlm, policy, linesep, encoding):
     try:
         w = rcsv.CSVWriter(stream, False, encoding, dlm, policy, line_separator=linesep)
         for rec in table:
-            w.write(list(rec))
+            w.write([list(c) if isinstance(c, list) else c for c in rec])
         w.finish()
         warns = w.get_warnings()
         res['wnone'] = any('None' in x for x in warns)
@@ -287,6 +300,8 @@ def check(run):
     mc_and_replay(run, 'space-whitespace', 'R_f2x2', 1, ['simple', 'quoted', 'quoted_rfc', 'whitespace'], 32, 0)
     mc_and_replay(run, 'comma-2rec-fields<=1', 'R_f1x2', 2, pol4, 44, 0)
     mc_and_replay(run, 'none-cells', 'R_none', 2, ['simple', 'quoted', 'quoted_rfc'], 44, 0)
+    mc_and_replay(run, 'list-cells', 'R_list', 1, ['simple', 'quoted'], 44, 0)
+    mc_and_replay(run, 'list-cells-pipe-delimiter', 'R_list', 1, ['simple', 'quoted'], 124, 0)
     mc_and_replay(run, 'bom', 'R_bom', 1, ['simple', 'quoted', 'quoted_rfc'], 44, 0)
     if not quick:
         mc_and_replay(run, 'comma-1rec-fields<=3-nobreak', 'R_f3x2nb', 1, ['simple', 'quoted', 'quoted_rfc'], 44, 0)
